@@ -1514,21 +1514,23 @@ Qed.
 
 (* Go and Python output does not depend on option c.name_prefix at all *)
 Lemma decl_idents_prefix_irrelevant : forall l opt p q, lang_eqb l LC = false ->
-  forall d encl, decl_idents l opt p encl d = decl_idents l opt q encl d.
+  forall d encl, decl_idents l opt (model_namer l p) encl d = decl_idents l opt (model_namer l q) encl d.
 Proof.
-  intros l opt p q Hl. fix IH 1. intros [n|n t|n ms|n nested fields] encl; cbn [decl_idents].
+  intros l opt p q Hl. fix IH 1. intros [n|n t|n ms|n nested fields] encl;
+    cbn [decl_idents nm_def nm_tref nm_size nm_field nm_tag model_namer].
   - rewrite (prefix_ignored_elsewhere l KConstant p encl n Hl),
             (prefix_ignored_elsewhere l KConstant q encl n Hl). reflexivity.
   - rewrite (prefix_ignored_elsewhere l KAlias p encl n Hl),
             (prefix_ignored_elsewhere l KAlias q encl n Hl). reflexivity.
   - rewrite (prefix_ignored_elsewhere l KEnum p encl n Hl),
             (prefix_ignored_elsewhere l KEnum q encl n Hl). f_equal.
-    apply map_ext. intros m.
+    apply flat_map_ext. intros m.
     rewrite (prefix_ignored_elsewhere l KEnumField p encl m Hl),
             (prefix_ignored_elsewhere l KEnumField q encl m Hl). reflexivity.
   - rewrite (prefix_ignored_elsewhere l KMessage p encl n Hl),
             (prefix_ignored_elsewhere l KMessage q encl n Hl). f_equal.
-    induction nested as [|d ds IHds]; [reflexivity|]. cbn [flat_map]. rewrite (IH d (encl ++ [n])), IHds. reflexivity.
+    induction nested as [|d ds IHds]; [reflexivity|]. cbn [flat_map].
+    rewrite (IH d (encl ++ [n])), IHds. reflexivity.
 Qed.
 
 Theorem proto_idents_prefix_irrelevant : forall l opt p q ds, lang_eqb l LC = false ->
@@ -1555,14 +1557,14 @@ Proof.
   apply negb_true_iff in Hi. rewrite Hi. apply IH, Hr.
 Qed.
 
-Lemma field_names_of_fields : forall l owner fields,
-  field_names_of (flat_map (field_idents l owner) fields) = map (fun f => field_name l (f_name f)) fields.
+Lemma field_names_of_fields : forall l N owner fields,
+  field_names_of (flat_map (field_idents l N owner) fields) = map (fun f => nm_field N (f_name f)) fields.
 Proof.
-  intros l owner. induction fields as [|f r IH]; [reflexivity|]. cbn [flat_map map].
+  intros l N owner. induction fields as [|f r IH]; [reflexivity|]. cbn [flat_map map].
   rewrite field_names_of_app, IH. f_equal. unfold field_idents.
   rewrite !field_names_of_app. cbn [field_names_of filter map is_field_ident fst snd app].
-  rewrite (field_names_of_none (match type_ref l (f_type f) with Some t => _ | None => [] end))
-    by (destruct (type_ref l (f_type f)); reflexivity).
+  rewrite (field_names_of_none (match nm_tref N (f_type f) with Some t => _ | None => [] end))
+    by (destruct (nm_tref N (f_type f)); reflexivity).
   rewrite (field_names_of_none (match l with LGo => _ | _ => [] end)) by (destruct l; reflexivity).
   reflexivity.
 Qed.
@@ -1574,35 +1576,38 @@ Proof.
   intros A g xs H. induction xs as [|x r IH]; [reflexivity|]. cbn [flat_map]. rewrite forallb_app, H, IH. reflexivity.
 Qed.
 
-Lemma field_names_message : forall l opt n fields,
-  field_names_of (message_idents l opt n fields) = map (fun f => field_name l (f_name f)) fields.
+Lemma field_names_message : forall l opt N n fields,
+  field_names_of (message_idents l opt N n fields) = map (fun f => nm_field N (f_name f)) fields.
 Proof.
-  intros l opt n fields. unfold message_idents. rewrite field_names_of_app, field_names_of_fields.
+  intros l opt N n fields. unfold message_idents. rewrite field_names_of_app, field_names_of_fields.
   rewrite field_names_of_none; [reflexivity|].
-  destruct l; [|reflexivity|reflexivity]. rewrite forallb_app. cbn [forallb is_field_ident fst negb andb].
+  destruct l; [|reflexivity|
+    rewrite forallb_app, forallb_map; apply andb_true_iff; split;
+    [reflexivity|apply forallb_forall; reflexivity]]. rewrite forallb_app. cbn [forallb is_field_ident fst negb andb].
   destruct opt; [reflexivity|]. rewrite forallb_app. cbn [forallb is_field_ident fst negb andb].
   apply no_fields_flat_map. intros f. destruct (is_array (f_type f)); reflexivity.
 Qed.
 
-Lemma fn_const : forall l opt p encl n, field_names_of (decl_idents l opt p encl (DConst n)) = [].
-Proof. intros [] opt p encl n; reflexivity. Qed.
+Lemma fn_const : forall l opt N encl n, field_names_of (decl_idents l opt N encl (DConst n)) = [].
+Proof. intros [] opt N encl n; reflexivity. Qed.
 
-Lemma fn_alias : forall l opt p encl n t, field_names_of (decl_idents l opt p encl (DAlias n t)) = [].
+Lemma fn_alias : forall l opt N encl n t, field_names_of (decl_idents l opt N encl (DAlias n t)) = [].
 Proof.
-  intros l opt p encl n t. cbn [decl_idents]. apply field_names_of_none. rewrite forallb_app.
-  apply andb_true_iff. split; [|destruct (type_ref l t); reflexivity].
+  intros l opt N encl n t. cbn [decl_idents]. apply field_names_of_none. rewrite forallb_app.
+  apply andb_true_iff. split; [|destruct (nm_tref N t); reflexivity].
   destruct l; [|reflexivity|reflexivity]. destruct opt; [reflexivity|]. destruct (is_array t); reflexivity.
 Qed.
 
-Lemma fn_enum : forall l opt p encl n ms, field_names_of (decl_idents l opt p encl (DEnum n ms)) = [].
+Lemma fn_enum : forall l opt N encl n ms, field_names_of (decl_idents l opt N encl (DEnum n ms)) = [].
 Proof.
-  intros l opt p encl n ms. cbn [decl_idents]. apply field_names_of_none. rewrite forallb_app.
+  intros l opt N encl n ms. cbn [decl_idents]. apply field_names_of_none. rewrite forallb_app.
   apply andb_true_iff. split; [destruct l; reflexivity|].
-  rewrite forallb_map. apply forallb_forall. intros m _. destruct l; reflexivity.
+  apply no_fields_flat_map. intros m. destruct l; reflexivity.
 Qed.
 
 Lemma decl_field_names_prefix_irrelevant : forall l opt p q d encl,
-  field_names_of (decl_idents l opt p encl d) = field_names_of (decl_idents l opt q encl d).
+  field_names_of (decl_idents l opt (model_namer l p) encl d) =
+  field_names_of (decl_idents l opt (model_namer l q) encl d).
 Proof.
   intros l opt p q. fix IH 1. intros [n|n t|n ms|n nested fields] encl.
   - rewrite !fn_const. reflexivity.
@@ -1638,28 +1643,31 @@ Theorem api_names : forall n,
   (Str "encode", Str "decode", Str "to_json", Str "to_dict").
 Proof. intros n. repeat split. Qed.
 
-Theorem api_names_declared : forall n fields,
-  (forall opt, In (IFunc, Str "Encode" ++ n) (message_idents LC opt n fields) /\
-               In (IFunc, Str "Decode" ++ n) (message_idents LC opt n fields) /\
-               In (IMacro, size_const LC n) (message_idents LC opt n fields) /\
-               In (IStruct, n) (message_idents LC opt n fields)) /\
-  In (IFunc, Str "Json" ++ n) (message_idents LC false n fields) /\
-  (forall opt, In (IMethod n, Str "Encode") (message_idents LGo opt n fields) /\
-               In (IMethod n, Str "Decode") (message_idents LGo opt n fields) /\
-               In (IMethod n, Str "Size") (message_idents LGo opt n fields) /\
-               In (IConst, size_const LGo n) (message_idents LGo opt n fields) /\
-               In (IType, n) (message_idents LGo opt n fields)) /\
-  (forall opt, In (IMethod n, Str "encode") (message_idents LPy opt n fields) /\
-               In (IMethod n, Str "decode") (message_idents LPy opt n fields) /\
-               In (IAttr n, Str "BYTES_LENGTH") (message_idents LPy opt n fields) /\
-               In (IClass, n) (message_idents LPy opt n fields)).
+Theorem api_names_declared : forall p n fields,
+  (forall opt, In (IFunc, Str "Encode" ++ n) (message_idents LC opt (model_namer LC p) n fields) /\
+               In (IFunc, Str "Decode" ++ n) (message_idents LC opt (model_namer LC p) n fields) /\
+               In (IMacro, size_const LC n) (message_idents LC opt (model_namer LC p) n fields) /\
+               In (IStruct, n) (message_idents LC opt (model_namer LC p) n fields)) /\
+  In (IFunc, Str "Json" ++ n) (message_idents LC false (model_namer LC p) n fields) /\
+  (forall opt, In (IMethod n, Str "Encode") (message_idents LGo opt (model_namer LGo p) n fields) /\
+               In (IMethod n, Str "Decode") (message_idents LGo opt (model_namer LGo p) n fields) /\
+               In (IMethod n, Str "Size") (message_idents LGo opt (model_namer LGo p) n fields) /\
+               In (IConst, size_const LGo n) (message_idents LGo opt (model_namer LGo p) n fields) /\
+               In (IType, n) (message_idents LGo opt (model_namer LGo p) n fields)) /\
+  (forall opt, In (IMethod n, Str "encode") (message_idents LPy opt (model_namer LPy p) n fields) /\
+               In (IMethod n, Str "decode") (message_idents LPy opt (model_namer LPy p) n fields) /\
+               In (IMethod n, Str "to_json") (message_idents LPy opt (model_namer LPy p) n fields) /\
+               In (IMethod n, Str "to_dict") (message_idents LPy opt (model_namer LPy p) n fields) /\
+               In (IAttr n, Str "BYTES_LENGTH") (message_idents LPy opt (model_namer LPy p) n fields) /\
+               In (IClass, n) (message_idents LPy opt (model_namer LPy p) n fields)).
 Proof.
-  intros n fields. unfold message_idents.
+  intros p n fields. unfold message_idents.
+  cbn [nm_size nm_encode nm_decode nm_json nm_menc nm_mdec nm_msize nm_mextra model_namer map].
   split; [|split; [|split]].
   - intros opt. repeat split; apply in_or_app; left; apply in_or_app; left; cbn [In]; tauto.
   - apply in_or_app; left; apply in_or_app; right. cbn [app In]. tauto.
   - intros opt. repeat split; apply in_or_app; left; cbn [In]; tauto.
-  - intros opt. repeat split; apply in_or_app; left; cbn [In]; tauto.
+  - intros opt. repeat split; apply in_or_app; left; cbn [In app]; tauto.
 Qed.
 
 Theorem out_file_constants :
